@@ -22,6 +22,13 @@ for f in sorted(glob.glob(os.path.join(vlib.VERIF, "findings", "F*", "trace_pinn
     r = vlib.validate_batch("MuxTrace", "MuxTrace", f)
     report(f"pinned trace of {fid} is rejected", len(r["failures"]) >= 1)
 
+# 1b. the witness of the open finding F19: accepted by the model of the code, NoOrphanWriter violated on it
+f19 = os.path.join(vlib.VERIF, "findings", "F19", "trace_witness.ndjson")
+r1 = vlib.validate_once("MuxTrace", "MuxTrace", f19)
+r2 = vlib.validate_once("MuxTrace", "MuxTrace_orphan", f19)
+report("witness trace of F19 conforms to the model of the code and violates NoOrphanWriter",
+       r1["accepted"] and not r2["accepted"] and r2.get("invariant") == "NoOrphanWriter")
+
 # 2. a corrupted field in an accepted trace is rejected at that line
 sched = os.path.join(vlib.VERIF, "findings", "F1", "schedule.json")
 d = vlib.build_harness(["mux_sim"])
@@ -42,7 +49,7 @@ r = vlib.validate_batch("MuxTrace", "MuxTrace", bad)
 report("the same trace with one read offset changed is rejected", len(r["failures"]) == 1 and r["failures"][0]["line_in_trace"] == i + 1)
 
 # 3. negative-control models must fail
-for mod, cfg in (("MC_Live", "MC_Live_pinned"), ("WriterWake", "MC_Wake_pinned"), ("Keepalive", "MC_Keepalive_f12"), ("MC_Mux", "MC_Reuse_kf")):
+for mod, cfg in (("MC_Live", "MC_Live_pinned"), ("WriterWake", "MC_Wake_pinned"), ("Keepalive", "MC_Keepalive_f12"), ("MC_Mux", "MC_Reuse_kf"), ("MC_Mux", "MC_Close_orphan")):
     r = vlib.model_check(mod, cfg, workers=4, timeout=600, coverage=False)
     report(f"negative control {cfg} is violated", not r["ok"], str(r["violated"]))
 print("SELFTEST", "OK" if ok else "FAILED")
